@@ -423,5 +423,13 @@ def replay(case):
     elif 'alloc' in case:
         check_alloc(20000, res)
     elif 'id' in case:
-        check_ids(0, 26 ** 3, res)
+        names = check_ids(0, 26 ** 3 + 26 ** 2, res)
+        if names is not None and len(set(names.values())) != len(names):
+            seen = {}
+            for i in sorted(names):
+                if names[i] in seen:
+                    res.violation('C02|ids|duplicate', '_name_for_id(%d) and _name_for_id(%d) are both %r' % (
+                        seen[names[i]], i, names[i]), {'id': i})
+                    break
+                seen[names[i]] = i
     return [(s, v[0]) for s, v in res.violations.items()]
